@@ -94,6 +94,12 @@ theorem refused_iff (hw W : Nat) (fcs : Option Nat) (b out : Nat) (whole : Bool)
   · unfold windowAccepted effectiveWindow at ha
     simpa using ha
 
+/-- **bufs_sufficient**: whatever buffers the context kept from earlier frames, after the sizing step EACH of them is at least as
+large as the frame about to be decoded needs - a later frame can never meet an input buffer smaller than its largest block -/
+theorem bufs_sufficient (cur : Bufs) (a b : Nat) : a ≤ (nextBufs cur a b).inSize ∧ b ≤ (nextBufs cur a b).outSize := by
+  unfold nextBufs
+  split <;> simp_all <;> omega
+
 /-- the estimate is monotone in the window limit: a larger limit never budgets less -/
 theorem estimate_monotone (a b : Nat) (h : a ≤ b) : estimateBuffers a ≤ estimateBuffers b := by
   unfold estimateBuffers decodingBufferSize
